@@ -19,8 +19,8 @@ import (
 	"github.com/ovh/kmip-go/ttlv"
 	"verifharness/msg"
 	"verifharness/pinned"
-	"verifharness/refttlv"
 	"verifharness/reftext"
+	"verifharness/refttlv"
 	"verifharness/vlib"
 )
 
@@ -364,7 +364,10 @@ func c04Vectors(c *vlib.Check) {
 	c.Extra["oasis_vectors"] = map[string]any{"files": len(files), "messages": total, "compared": compared, "skipped_unimplemented_operation": skippedUnimpl}
 }
 
-func pinnedTagName(t uint32) (string, bool) { n := msg.TagName(t); return n, !strings.HasPrefix(n, "0x") }
+func pinnedTagName(t uint32) (string, bool) {
+	n := msg.TagName(t)
+	return n, !strings.HasPrefix(n, "0x")
+}
 
 func hasUnknownPayload(m any) bool {
 	switch x := m.(type) {
